@@ -824,6 +824,41 @@ def run(res, args):
             res.violation({'kind': kind, 'request': small, 'impl': j['impl'], 'model': j['model'],
                            'oracle': j['oracle'], 'sanitizer': j['crash'],
                            'explain': 'the real container does not behave like a plain sequence on this history'}, name)
+    # ---- large buffers (sizes a history line cannot carry): appends / inserts / deletes of 1 byte .. 300 KiB
+    # on one buffer, against the plain byte-string reference (length, FNV-1a of the contents, terminator);
+    # an overrun of the block is an ASan abort
+    import corr as _corr
+    big_lines, big_exp = [], []
+    for _ in range(60 if res.tier == 'quick' else 1500):
+        ref, toks, exps = b'', [], []
+        for k in range(rng.randint(2, 7)):
+            r = rng.random()
+            n = rng.choice([1, 100, 4096, 65535, 65536, 65537, 70000, 100000, 131072, 200000, 300000, rng.randrange(1, 300000)])
+            if r < 0.6 or not ref:
+                blk = bytes((k * 31 + j * 7 + 1) & 0xff for j in range(n)); ref += blk; toks.append(f'a{n}')
+            elif r < 0.85:
+                pos = rng.randrange(len(ref) + 1)
+                blk = bytes((k * 31 + j * 7 + 1) & 0xff for j in range(n)); ref = ref[:pos] + blk + ref[pos:]; toks.append(f'i{n}:{pos}')
+            else:
+                pos = rng.randrange(len(ref)); n = rng.randint(1, len(ref) - pos)
+                ref = ref[:pos] + ref[pos + n:]; toks.append(f'd{n}:{pos}')
+            h = 2166136261
+            for c in ref:
+                h = ((h ^ c) * 16777619) & 0xffffffff
+            exps.append(f'{len(ref)}:{h}:Z')
+        big_lines.append('BIG ' + ','.join(toks)); big_exp.append(' '.join(exps))
+    big_out, big_inc = _corr.run_lines(exe, big_lines, env=env, chunk=10, timeout=900)
+    nbig_bad = 0
+    for ln, e, o in zip(big_lines, big_exp, big_out):
+        res.add_eval(ln)
+        if o != e:
+            nbig_bad += 1
+            if nbig_bad <= 2:
+                r1, rc1, err1 = _corr.isolate(exe, ln, env=env, timeout=300)
+                res.violation({'kind': 'large-buffer', 'request': ln, 'impl': (o or r1 or '<process died>')[:400], 'expected': e[:400], 'rc': rc1,
+                               'stderr': (err1 or '')[-1500:],
+                               'explain': 'a buffer grown by large steps does not hold the byte string it should (or the block was overrun)'}, f'big-{nbig_bad}')
+    res.coverage['large_buffer_histories'] = {'histories': len(big_lines), 'failing': nbig_bad}
     if failing and not res.violations:
         res.violation({'kind': 'proof', 'theorems': failing,
                        'explain': 'Props/C19.lean (or the model it is about) no longer checks'}, 'proof', no_input=True)
